@@ -4,15 +4,21 @@
 (* line: generated programs and fragments of the shipped tables) TLC enumerates every plan of at  *)
 (* most MaxMut mutations - every truncation point, every single-bit flip, every byte moved by     *)
 (* -3..3 (length operands that overstate by a few), every substitution of an interesting byte,   *)
-(* every corruption of every plausible PkgLength, every splice of a package in front of another  *)
-(* - and writes each distinct resulting byte string, with the plan that led   *)
-(* to it, to IOEnv.CASES.  The Go harness feeds exactly these strings to the real parser.         *)
+(* every corruption of every plausible PkgLength, every splice of a package in front of any byte, *)
+(* every join of a prefix with (the tail of) the next seed - and writes each distinct resulting   *)
+(* byte string, with the plan that led to it, to IOEnv.CASES.  The Go harness feeds exactly these *)
+(* strings to the real parser.  The cfgs choose plan length, substituted values and kinds.        *)
 EXTENDS AmlRobust, Json, CSV, IOUtils
 CONSTANTS MaxMut,        \* plan length
-          SetAll         \* TRUE: substitute every value of Interesting; FALSE: a handful
+          SetMode,       \* byte substitution: "few" values, the "interesting" ones, or "all" 256
+          Kinds          \* the kinds of mutation enumerated (a subset of AllKinds)
 Seeds == ndJsonDeserialize(IOEnv.SEEDS)
-SetVals    == IF SetAll THEN Interesting ELSE {0, 16, 20, 46, 91, 255}
+SetVals    == CASE SetMode = "few" -> {0, 16, 20, 46, 91, 255}
+                [] SetMode = "interesting" -> Interesting
+                [] SetMode = "all" -> 0 .. 255
 SpliceLens == {1, 4}
+\* the other well-formed program of a Join: the next seed of the list
+Donor(s) == Seeds[(s % Len(Seeds)) + 1].b
 
 VARIABLES sd, plan, bytes
 vars == <<sd, plan, bytes>>
@@ -21,10 +27,10 @@ Init == /\ sd \in 1 .. Len(Seeds)
         /\ plan = <<>>
         /\ bytes = Seeds[sd].b
 Next == /\ Len(plan) < MaxMut
-        /\ \E m \in Mutations(bytes, SetVals, SpliceLens) :
-              /\ Apply(bytes, m) # bytes
+        /\ \E m \in Mutations(Kinds, bytes, Donor(sd), SetVals, SpliceLens) :
+              /\ Apply(bytes, Donor(sd), m) # bytes
               /\ plan' = Append(plan, m)
-              /\ bytes' = Apply(bytes, m)
+              /\ bytes' = Apply(bytes, Donor(sd), m)
         /\ UNCHANGED sd
 
 \* what a plan may do to a program: the result is a byte string, a truncation is a proper prefix,
@@ -35,6 +41,7 @@ PlanOK == /\ IsBytes(bytes)
                LET m == plan[1]  s == Seeds[sd].b IN
                CASE m[1] = "Truncate" -> bytes = SubSeq(s, 1, Len(bytes)) /\ Len(bytes) < Len(s)
                  [] m[1] = "Splice"   -> Len(bytes) = Len(s) + m[4]
+                 [] m[1] = "Join"     -> Len(bytes) = m[2] + Len(Donor(sd)) - m[3] + 1 /\ SubSeq(bytes, 1, m[2]) = SubSeq(s, 1, m[2])
                  [] OTHER             -> Len(bytes) = Len(s) /\ bytes # s
 Emit == CSVWrite("%1$s", <<ToJson([seed |-> Seeds[sd].name, plan |-> plan, b |-> bytes])>>, IOEnv.CASES)
 View == bytes
